@@ -10,7 +10,7 @@
      generate(): size and FIPS 186-4 margins                                                 ("generated key violates ...")
 
    Validity of the offered tuple is COMPUTED here from the recorded numbers with certified relations (untrusted witnesses, DESIGN.md
-   4.5); the verdict class the model stated for the case (field cls) is only cross-checked ("harness: model class ..."): key needs
+   4.5); the verdict class the model stated for the case (field cls) is only cross-checked (position field of the VERDICT line): key needs
    ok / soft, ValueError needs no / soft, either is compatible with everything.  Permissive spots are the named operators of
    KeyInvariants (KiRsaLargeD, KiEdSmallOrderPublic, KiMtNonCanonicalU, KiEdNonCanonicalAccepted) and, here, RsaUnfactoredModulus,
    ImportIgnoresCrtFields, PublicValueNotInSubgroup.  Clauses starting with "harness:" are recorder inconsistencies (machinery). *)
@@ -29,9 +29,13 @@ Against(api, v, exc, retv) ==
    ELSE IF v.st = "ok" THEN (IF exc = "none" THEN retv ELSE "refused a valid key")
    ELSE IF v.st = "no" THEN (IF exc = "ValueError" THEN "ok" ELSE api \o " accepted components violating: " \o v.why)
    ELSE (IF exc = "none" THEN retv ELSE "ok")                                                            \* soft
+\* The class the model stated for the case (field cls; "" = not stated) against the validity computed here.  A verdict is a pair
+\* <<clause, the model's class transfers>>: the clause never depends on cls.  The toy numbers of sys/KeyPipeline have coincidences the real
+\* ones do not have (19 = 2 * 10 - 1 makes "-Q" then "y+1" the identity on ws19; half of all ordinates belong to an Edwards point), so a
+\* disagreement is not a recorder inconsistency: it is reported in the position field of the VERDICT line (1 = agrees, 2 = differs) and
+\* props/c05.py requires exact agreement on the cases with at most one corruption and bounds the rate on the double ones.
 ModelAgrees(cls, v) == cls \in {"", "either"} \/ v.st = "soft" \/ v.st = "witness" \/ (cls = "key" /\ v.st = "ok") \/ (cls = "ValueError" /\ v.st = "no")
-WithModel(e, v, verdict) == IF ModelAgrees(e.cls, v) THEN verdict
-                            ELSE "harness: model class " \o e.cls \o " but the data layer says " \o v.st \o " (" \o v.why \o ")"
+WithModel(e, v, verdict) == <<verdict, ModelAgrees(e.cls, v)>>
 
 \* ------------------------------------------------------------------ RSA
 \* (n, e, d) without factors: decided with the recorder's factorisation of n where it has one (wp wq = n; unique if they are prime), else nothing
@@ -250,11 +254,11 @@ Judge(e) ==
      [] e.fam = "dsa" -> DsaVerdict(e)
      [] e.fam = "elgamal" -> EgVerdict(e)
      [] e.fam = "ec" -> EcVerdict(e)
-     [] e.fam = "gen" -> GenVerdict(e)
-     [] OTHER -> "harness: unknown family"
+     [] e.fam = "gen" -> <<GenVerdict(e), TRUE>>
+     [] OTHER -> <<"harness: unknown family", TRUE>>
 VARIABLES t
 TInit == t = 1
 TNext == /\ t <= Len(Traces)
-         /\ PrintT(<<"VERDICT", Traces[t].tid, 1, Judge(Traces[t])>>)
+         /\ LET j == Judge(Traces[t]) IN PrintT(<<"VERDICT", Traces[t].tid, IF j[2] THEN 1 ELSE 2, j[1]>>)
          /\ t' = t + 1
 =============================================================================
